@@ -398,7 +398,7 @@ func init() {
 					if !onTR(sc, stopFn) {
 						continue
 					}
-					okEmpty := DominatedByExt(sc, CmpCond(token.EQL, lenRecon, IsConstInt(0)))
+					okEmpty := DominatedByExt(sc, CmpCond(token.EQL, lenRecon, IsConstInt(0))) || DominatedByExt(sc, CmpCond(token.LEQ, lenRecon, IsConstInt(0))) || DominatedByExt(sc, CmpCond(token.LSS, lenRecon, IsConstInt(1)))
 					okRestart, _ := MustPass(sc, func(x ssa.Instruction) bool { return onTR(x, startFn) }, nil)
 					c.Check(okEmpty || okRestart, ks.key("stop-only-when-none-outstanding@"+c.P.FuncName(fn)), c.Pos(sc), "tReconfig.stop() is dominated by len(reconfigs)==0 or restarts the timer at once",
 						"the reconfig timer is stopped while reset requests may still be outstanding: a lost request is never retransmitted ("+c.describeConds(sc)+")")
@@ -439,8 +439,18 @@ func init() {
 				}
 				nClose++
 				c.Dom("close-from-open-only", a.Instr, CmpCond(token.EQL, IsLoadOf(stateF), IsConstInt(ov)), "state == Open")
-				k, isK := constInt(a.Val)
-				c.Check(isK && k != ov, "close-target", c.Pos(a.Instr), "Close moves to Closing/Closed", "Close stores Open")
+				// every value the store can write (through φ) is a constant other than Open
+				okTarget := true
+				leaves := phiLeaves(a.Val)
+				if len(leaves) == 0 {
+					okTarget = false
+				}
+				for _, l := range leaves {
+					if k, isK := constInt(l.Val); !isK || k == ov {
+						okTarget = false
+					}
+				}
+				c.Check(okTarget, "close-target", c.Pos(a.Instr), "Close moves to Closing/Closed", "Close stores Open")
 			}
 			c.Check(nClose >= 1, "close-changes-state", c.P.Pos(closeFn.Pos()), "Close() changes the stream state", "Close() no longer changes the stream state")
 		}})
